@@ -7,6 +7,15 @@ ROOT = os.path.dirname(os.path.dirname(os.path.abspath(__file__)))
 ALL = ["C%02d" % i for i in range(1, 21)]
 
 CLAIMED = {
+    "C16": dict(
+        category="model_checking",
+        text="TLC checks partition/order independence, the BER<=BLER<=min(1,B*BER) sandwich, symmetry and reset on every history of "
+             "update/compute/reset/forward up to length 6 over pools of batches (Metrics.tla); every exported history is replayed on real "
+             "BitErrorRate/BlockErrorRate objects with the counters compared after each step; long random histories recorded from the "
+             "real objects (real/complex, shapes, dtypes, reductions, helpers, rejections) are validated by Trace_Metrics.",
+        design_ref="7/C16",
+        note="Inputs are exact 0/1 tensors (thresholding unambiguous); blocks are contiguous segments of a batch item; values compared to 2e-5.",
+        technique="TLA+ spec Metrics + TLC exhaustive histories; spec->code history replay and code->spec trace validation"),
     "C17": dict(
         category="model_checking",
         text="TLC explores every interleaving of Start/Finish/Collect of the ParallelPool specification (N<=5 branches, every pool size) "
